@@ -33,7 +33,8 @@ type Variant struct {
 		Rule string `json:"rule"`
 		Site string `json:"site"`
 	} `json:"expect"`
-	Note string `json:"note"`
+	Note         string `json:"note"`
+	ExpectSilent bool   `json:"expect_silent"`
 }
 
 var lineRe = regexp.MustCompile(`(?m)^(VIOLATED|UNDECIDED): (\S+?)\.(\S+) site=(.*?) at `)
@@ -174,9 +175,9 @@ func thorough(prop string, w *core.World, r *core.Report, verifDir string, selfc
 	wg.Wait()
 	r.Rule("BUILD-VARIANTS", 2, "thorough tier: the rules of this property are re-run on the tree loaded with GOARCH=386 and with -tags verif (separate processes); every finding that the default build does not have is reported.")
 	if selfcheck {
-		r.Rule("SELF-VALIDATION", 1, "thorough tier: every stored single-edit variant of /repo for this property (variants/*.json: reverted repairs, flipped guards, dropped calls, independent agents' seeded changes) is analysed through an in-memory overlay and must make the expected rule report; a missed variant marks the checker as broken (exit 2, no VIOLATION line). Variants whose anchor text is gone are skipped and listed.")
+		r.Rule("SELF-VALIDATION", 1, "thorough tier: every stored single-edit variant of /repo for this property (variants/*.json: reverted repairs, flipped guards, dropped calls, independent agents' seeded changes) is analysed through an in-memory overlay and must make the expected rule report, and every stored behaviour-preserving refactoring of the property (variants/refactor-*.json) must stay silent; a missed variant or a false alarm marks the checker as broken (exit 2, no VIOLATION line). Variants whose anchor text is gone are skipped and listed.")
 	}
-	var caught, missed []string
+	var caught, missed, silent []string
 	for i, j := range jobs {
 		res := results[i]
 		if j.v == nil {
@@ -199,6 +200,22 @@ func thorough(prop string, w *core.World, r *core.Report, verifDir string, selfc
 		name := strings.TrimPrefix(j.name, "variant ")
 		if res.err != nil || strings.Contains(res.out, ".LOAD site=repository") {
 			skipped = append(skipped, name+": variant does not load/type-check on the current tree (the code around its edit was changed): "+tail(res.out, 200))
+			continue
+		}
+		if j.v.ExpectSilent {
+			// a behaviour-preserving refactoring: every report the unchanged tree does not have is a false alarm
+			var alarms []string
+			for _, f := range res.findings {
+				if !base[f[1]+"|"+f[2]] {
+					alarms = append(alarms, f[1]+" "+f[2])
+				}
+			}
+			if len(alarms) == 0 {
+				silent = append(silent, name)
+				r.OK("SELF-VALIDATION", "variant "+name, "", "silent as required: "+j.v.Note)
+			} else {
+				r.CheckerBroken = append(r.CheckerBroken, fmt.Sprintf("false alarm on behaviour-preserving variant %s: %v", name, alarms))
+			}
 			continue
 		}
 		ok := true
@@ -224,4 +241,5 @@ func thorough(prop string, w *core.World, r *core.Report, verifDir string, selfc
 	r.Extra["selfvalidation_caught"] = caught
 	r.Extra["selfvalidation_missed"] = missed
 	r.Extra["selfvalidation_skipped"] = skipped
+	r.Extra["selfvalidation_silent_on_refactorings"] = silent
 }
